@@ -13,9 +13,9 @@ ASSUMPTIONS = [
     "trusted: clang 14 + ASan/UBSan, rapidcheck, the reference parser and table generator in props/C18 (self-tested against the header's and tests/getopt's examples)",
 ]
 SUBS = [
-    dict(name="parse", quick=dict(cases=60000, shards=11), thorough=dict(cases=600000, shards=9)),
-    dict(name="fresh", quick=dict(cases=4000, shards=3), thorough=dict(cases=40000, shards=3), fork=True),
-    dict(name="enum", quick=dict(cases=12, shards=2), thorough=dict(cases=24, shards=4)),
+    dict(name="parse", quick=dict(cases=100000, shards=11), thorough=dict(cases=900000, shards=9)),
+    dict(name="fresh", quick=dict(cases=4000, shards=3), thorough=dict(cases=35000, shards=3), fork=True),
+    dict(name="enum", quick=dict(cases=24, shards=2), thorough=dict(cases=24, shards=4)),
 ]
 
 
